@@ -1,5 +1,5 @@
 CONSTANT NameBlind = FALSE
 CONSTANT Tier = "thorough"
 SPECIFICATION Spec
-INVARIANT EffectiveIsMin ArgTransparent RetTransparent MissingMethodConnects IncompatibleRejected MissingPanicsAtCall Export
+INVARIANT EffectiveIsMin ArgTransparent RetTransparent MissingMethodConnects IncompatibleRejected MissingPanicsAtCall NestedTransparent Export
 CHECK_DEADLOCK FALSE
